@@ -25,6 +25,7 @@ META = {
         "C10.P4 send_message reports True only if every block's wait() was truthy",
         "C10.P5 BlockSendInfo maps resolve(True/False) to wait() True/False",
         "C10.P6 no connection socket is configured for an abortive close (SO_LINGER on, timeout 0), which would discard bytes already reported as sent",
+        "C10.W4 the reader suspension flag is lowered on every path on which it was raised (shared with C09.P5)",
         "C10.W3 the thread that drains the send queue is stopped on every path of the link-loss handler: the next link starts the only writer (shared with C09.P1)",
     ],
     "does_not_decide": ["kernel socket-buffer behaviour, the peer's pacing (the rule is on the use of the count, the only thing the code controls)"],
@@ -402,6 +403,8 @@ def check_process_send_queue(ctx):
         if floop is not None and isinstance(floop.target, ast.Name) and c.args and isinstance(c.args[0], ast.Name) and c.args[0].id == floop.target.id:
             it = floop.iter
             in_order = (isinstance(it, ast.Name) and it.id in part_vars) or any(it is p for p, _ in parts)
+        elif floop is not None and any(p is floop and any(x is fx.get("inline_slice") for x in ast.walk(c.args[0])) for p, fx in parts if c.args):
+            in_order = True  # the loop over the offsets hands each slice to send_data as it cuts it
         ctx.ob("C10.P3", q, in_order,
                "each packet is passed to send_data once, in slicing order" if in_order else
                f"send_data({norm(c.args[0]) if c.args else ''}) is not fed from an in-order iteration over the packet list",
@@ -702,6 +705,12 @@ def check_writer_stopped(ctx):
 def run(ctx):
     check_single_writer(ctx)
     check_writer_stopped(ctx)
+    # bytes the peer has already accepted into its socket survive the close only if our side keeps reading: a reader left
+    # suspended (the `_disconnecting` flag raised and never lowered) leaves input unread, the close then sends RST and the
+    # kernel drops the unsent tail of a send that was reported as successful (C09.P5)
+    from .c09 import check_read_suspension
+
+    check_read_suspension(ctx, "C10.W4")
     check_all_send_data(ctx)
     check_helper(ctx)
     from .. import refmodels
